@@ -17,6 +17,7 @@ from typing import Dict, List, Optional, Tuple
 
 from .frontend import AnalysisError, FuncInfo, Program, unparse
 from .values import (
+    PartialV,
     BoolV,
     BoundV,
     ClassV,
@@ -157,6 +158,7 @@ class Interp:
         self.unresolved: List[Tuple[str, str, int]] = []
         self.notes: List[str] = []
         self.trace_loads = set()  # attribute names whose loads are recorded as events
+        self.yield_stack: list = []  # active `with <generator context manager>` statements
         self.trace_defaults: set = set()  # parameter names whose defaulting is recorded as an event
         self.inline_skip = set()  # function quals not to inline (treated as opaque)
         self.loop_depth = 0
@@ -230,7 +232,7 @@ class Interp:
     def truth(self, st: State, v: V) -> Optional[bool]:
         if isinstance(v, Const):
             return bool(v.value)
-        if isinstance(v, (Obj, FuncV, BoundV, ClassV, ModV, EnumClsV, ExtObj, FutureV, ExcV)):
+        if isinstance(v, (Obj, FuncV, BoundV, ClassV, ModV, EnumClsV, ExtObj, FutureV, ExcV, PartialV)):
             return True
         if isinstance(v, ExtV):
             return True if v.recv is None else None
@@ -351,7 +353,7 @@ class Interp:
     def is_none(self, st: State, v: V) -> Optional[bool]:
         if isinstance(v, Const):
             return v.value is None
-        if isinstance(v, (Obj, FuncV, BoundV, ClassV, ExtV, ModV, EnumClsV, EnumMemV, TupleV, ListV, DictV, BoolV, ExtObj, FutureV, ExcV)):
+        if isinstance(v, (Obj, FuncV, BoundV, ClassV, ExtV, ModV, EnumClsV, EnumMemV, TupleV, ListV, DictV, BoolV, ExtObj, FutureV, ExcV, PartialV)):
             return False
         k = v.key()
         if ("isnone", k) in st.facts:
@@ -499,10 +501,15 @@ class Interp:
             return [self.raise_(st, TypeError, node, f"arguments do not match signature of {info.qual}")]
         frame = {"__func__": info, "__closure__": closure, **env}
         depth = len(st.frames)
+        # a pure helper called from inside a pure helper leaves no trace of its own: the outer helper's paths are
+        # joined at its return, which needs them to carry the same events whatever internal route they took
+        short = info.qual.rsplit(".", 1)[-1].split(":")[-1]
+        quiet = depth > 0 and short.startswith("_") and not short.startswith("__") and info.qual not in self.PURE_FUNCS and self.is_pure_helper(info) and any(self.is_pure_helper(f["__func__"]) for f in st.frames)
         st.frames = st.frames + (frame,)
         func, line = self.where(st, node) if depth else ("<root>", 0)
         st.stack = st.stack + (f"{info.qual}",)
-        self.emit(st, "enter", info.qual, node, args=args)
+        if not quiet:
+            self.emit(st, "enter", info.qual, node, args=args)
         outs: List[Outcome] = []
         for kind, s, v in self.exec_block(info.node.body, st):
             if kind == "cut":
@@ -511,10 +518,12 @@ class Interp:
             s.frames = s.frames[:depth]
             s.stack = s.stack[:-1]
             if kind == "next":
-                self.emit_exit(s, info, node, Const(None))
+                if not quiet:
+                    self.emit_exit(s, info, node, Const(None))
                 outs.append(("val", s, Const(None)))
             elif kind == "return":
-                self.emit_exit(s, info, node, v)
+                if not quiet:
+                    self.emit_exit(s, info, node, v)
                 outs.append(("val", s, v))
             elif kind == "raise":
                 outs.append((kind, s, v))
@@ -555,6 +564,14 @@ class Interp:
                 name = f.attr if isinstance(f, ast.Attribute) else (f.id if isinstance(f, ast.Name) else "")
                 if name in self.MUTATING_CALLS:
                     pure = False
+                elif isinstance(f, ast.Name) and self.p.resolve_global(info.module, name) and self.p.resolve_global(info.module, name)[0] == "class" and not self.p.resolve_global(info.module, name)[1].module.name.startswith("const"):
+                    pure = False  # creates an object of a repo class (its constructor stores attributes)
+                elif isinstance(f, ast.Attribute) and isinstance(f.value, ast.Call):
+                    pure = False  # method call on a freshly created / returned object: not known to be effect free
+                elif isinstance(f, ast.Name):
+                    r = self.p.resolve_global(info.module, name)
+                    if r and r[0] == "func" and r[1] is not info and not self.is_pure_helper(r[1]):
+                        pure = False  # calls a repo function that has effects
                 elif isinstance(f, ast.Attribute) and isinstance(f.value, ast.Name) and f.value.id == "self" and info.cls is not None:
                     m = self.p.find_method(info.cls.qual, name)
                     if isinstance(m, FuncInfo) and m is not info and not self.is_pure_helper(m):
@@ -606,10 +623,40 @@ class Interp:
 
     def call(self, st: State, fn: V, args: List[V], kwargs: Dict[str, V], node) -> List[Outcome]:
         """Call any callable abstract value."""
+        if isinstance(fn, PartialV):
+            kw = dict(fn.kwargs)
+            kw.update(kwargs)
+            return self.call(st, fn.fn, list(fn.args) + list(args), kw, node)
         if isinstance(fn, (FuncV, BoundV)):
             info = fn.info
             if info.is_async:
                 return [("val", st, FutureV(fn, args, kwargs, "coro"))]
+            if any(d.split(".")[-1] == "contextmanager" for d in info.decorators):
+                return [("val", st, FutureV(fn, args, kwargs, "ctxmgr"))]
+            if isinstance(fn, FuncV) and not getattr(fn, "raw", False) and info.decorators:
+                # repo-defined decorators (`@_guard` under the registry decorator): the name is bound to what the
+                # decorator returned, so the call goes through the wrapper it builds around the raw function
+                decs = []
+                for d in info.decorators:
+                    if "." not in d:
+                        r = self.p.resolve_global(info.module, d)
+                        if r and r[0] == "func":
+                            decs.append(r[1])
+                if decs:
+                    cur: V = FuncV(info, fn.closure)
+                    cur.raw = True
+                    s_cur = st
+                    ok = True
+                    for dinfo in reversed(decs):
+                        outs = self.call_func(s_cur, FuncV(dinfo), [cur], {}, node)
+                        vals = [(s2, v2) for k2, s2, v2 in outs if k2 == "val"]
+                        if len(outs) != 1 or len(vals) != 1 or not isinstance(vals[0][1], (FuncV, BoundV, PartialV)):
+                            ok = False
+                            break
+                        s_cur, cur = vals[0]
+                    if ok:
+                        return self.call(s_cur, cur, args, kwargs, node)
+                    raise AnalysisError(f"decorator of {info.qual} does not return a single callable")
             if info.qual in self.inline_skip:
                 self.emit(st, "opaque", info.qual, node, args=([fn.recv] + list(args)) if isinstance(fn, BoundV) else args)
                 return [("val", st, Unknown(label=f"opaque:{info.qual}:{getattr(node,'lineno',0)}"))]
@@ -1064,7 +1111,39 @@ class Interp:
     def ev_Dict(self, node, st):
         keys = [k for k in node.keys]
         if any(k is None for k in keys):
-            return [(k, s, Unknown("dict") if k == "val" else v) for k, s, v in self.ev_list([v for v in node.values], st)]
+            # {literal entries, **spread}: later entries win; a key written literally is present whatever the spread holds
+            res = []
+            for kind, s, vals in self.ev_list([k for k in node.keys if k is not None] + list(node.values), st):
+                if kind != "val":
+                    res.append((kind, s, vals))
+                    continue
+                nk = sum(1 for k in node.keys if k is not None)
+                kvals, vvals = list(vals[:nk]), list(vals[nk:])
+                entries: Dict = {}
+                closed = True
+                ok = True
+                ki = 0
+                for k, v in zip(node.keys, vvals):
+                    if k is None:
+                        if isinstance(v, DictV):
+                            if not v.closed:
+                                closed = False
+                                # an open spread may override any earlier key with an unknown value
+                                for name in list(entries):
+                                    if name not in v.entries:
+                                        entries[name] = Unknown(label=f"maybe-overridden:{name}:{self.where(s,node)}")
+                            entries.update(v.entries)
+                        else:
+                            ok = False
+                    else:
+                        kv = kvals[ki]
+                        ki += 1
+                        if isinstance(kv, Const):
+                            entries[kv.value] = v
+                        else:
+                            ok = False
+                res.append(("val", s, DictV(entries, closed=closed, label=self.site_label(s, node, "d")) if ok else Unknown("dict")))
+            return res
         outs = self.ev_list(list(node.keys) + list(node.values), st)
         res = []
         n = len(node.keys)
@@ -1692,7 +1771,16 @@ class Interp:
     def st_Delete(self, node, st):
         res = []
         for tgt in node.targets:
-            if isinstance(tgt, ast.Subscript):
+            if isinstance(tgt, ast.Subscript) and isinstance(tgt.slice, ast.Slice):
+                # del x[a:b]: a range of the container is removed
+                for kind, s, vals in self.ev_list([tgt.value], st):
+                    if kind == "val":
+                        self.emit(s, "delitem", "delslice", node, recv=vals[0], args=())
+                        s.drop_facts(lambda f: f[0] in ("in", "truthy") and f[-1] == vals[0].key())
+                        res.append(("next", s, None))
+                    else:
+                        res.append((kind, s, vals))
+            elif isinstance(tgt, ast.Subscript):
                 for kind, s, vals in self.ev_list([tgt.value, tgt.slice], st):
                     if kind == "val":
                         self.emit(s, "delitem", "delitem", node, recv=vals[0], args=(vals[1],))
@@ -1935,7 +2023,106 @@ class Interp:
 
     st_AsyncFor = st_For
 
+    def _with_generator_cm(self, node, st, item, cm: FutureV):
+        """`with cm(...) as x: BODY` for a repo @contextmanager generator: the generator body is interpreted
+        and BODY runs, in the caller's frame, where it yields (ev_Yield)."""
+        hook = {"node": node, "target": item.optional_vars, "depth": len(st.frames), "stack": len(st.stack), "id": id(node) ^ len(st.events)}
+        self.yield_stack.append(hook)
+        try:
+            outs = self.call_func(st, cm.fn, list(cm.args), cm.kwargs, node)
+        finally:
+            self.yield_stack.pop()
+        res = []
+        for kind, s, v in outs:
+            pend = [n for n in s.notes if n[0] == "ctl" and n[1] == hook["id"]]
+            if pend:
+                s.notes = tuple(n for n in s.notes if not (n[0] == "ctl" and n[1] == hook["id"]))
+            if kind == "val":
+                if pend:
+                    res.append((pend[-1][2], s, pend[-1][3]))
+                else:
+                    res.append(("next", s, None))
+            else:
+                res.append((kind, s, v))
+        return res
+
+    def ev_Yield(self, node, st):
+        if not self.yield_stack:
+            raise AnalysisError(f"unsupported expression Yield at {self.where(st, node)}: {unparse(node)[:60]}")
+        hook = self.yield_stack[-1]
+        res: List[Outcome] = []
+        vals = self.ev(node.value, st) if node.value is not None else [("val", st, Const(None))]
+        for kind, s, v in vals:
+            if kind != "val":
+                res.append((kind, s, v))
+                continue
+            gen_frames = s.frames[hook["depth"]:]
+            gen_stack = s.stack[hook["stack"]:]
+            s.frames = s.frames[: hook["depth"]]
+            s.stack = s.stack[: hook["stack"]]
+            wnode = hook["node"]
+            self.emit(s, "with_enter", "with", wnode, recv=v)
+            starts = self.assign_target(s, hook["target"], v, wnode) if hook["target"] is not None else [("next", s, None)]
+            # the with body runs outside the generator: an inner `with` of the body has its own hook
+            saved = self.yield_stack
+            self.yield_stack = []
+            try:
+                body_outs = []
+                for k0, s0, x0 in starts:
+                    if k0 != "next":
+                        body_outs.append((k0, s0, x0))
+                    else:
+                        body_outs.extend(self.exec_block(wnode.body, s0))
+            finally:
+                self.yield_stack = saved
+            for k2, s2, v2 in body_outs:
+                if k2 == "cut":
+                    res.append((k2, s2, v2))
+                    continue
+                self.emit(s2, "with_exit", "with", wnode, extra=k2)
+                s2.frames = s2.frames[: hook["depth"]] + tuple(dict(f) for f in gen_frames)
+                s2.stack = s2.stack[: hook["stack"]] + gen_stack
+                if k2 == "next":
+                    res.append(("val", s2, Const(None)))
+                elif k2 == "raise":
+                    res.append(("raise", s2, v2))
+                else:
+                    # return / break / continue out of the body: the generator is resumed normally (__exit__ without
+                    # an exception); the pending control transfer happens when the with statement is left
+                    s2.notes = s2.notes + (("ctl", hook["id"], k2, v2),)
+                    res.append(("val", s2, Const(None)))
+        return res
+
     def st_With(self, node, st):
+        pre = None
+        if len(node.items) == 1 and isinstance(node.items[0].context_expr, ast.Call) and unparse(node.items[0].context_expr.func).split(".")[-1] == "suppress":
+            pass
+        elif len(node.items) == 1:
+            item = node.items[0]
+            pre = self.ev(item.context_expr, st)
+            if any(k == "val" and isinstance(v, FutureV) and v.kind == "ctxmgr" for k, s, v in pre):
+                res = []
+                for k, s, v in pre:
+                    if k != "val":
+                        res.append((k, s, v))
+                    elif isinstance(v, FutureV) and v.kind == "ctxmgr":
+                        res.extend(self._with_generator_cm(node, s, item, v))
+                    else:
+                        raise AnalysisError(f"mixed context manager values at {self.where(s, node)}")
+                return res
+        if pre is None and len(node.items) == 1:
+            item = node.items[0]
+            if isinstance(item.context_expr, ast.Call) and unparse(item.context_expr.func).split(".")[-1] == "suppress":
+                # contextlib.suppress(E, ...): exceptions of these classes raised in the body end the block normally
+                classes = [self.exc_class(st, a)[0] for a in item.context_expr.args]
+                res = []
+                for k2, s2, v2 in self.exec_block(node.body, st):
+                    if k2 == "raise" and any(issubclass(v2.cls, c) for c in classes):
+                        self.emit(s2, "catch", v2.cls.__name__, node)
+                        res.append(("next", s2, None))
+                    else:
+                        res.append((k2, s2, v2))
+                return res
         outs: List[Outcome] = [("next", st, None)]
         for item in node.items:
             nxt = []
@@ -1943,7 +2130,7 @@ class Interp:
                 if kind != "next":
                     nxt.append((kind, s, x))
                     continue
-                for k2, s2, v in self.ev(item.context_expr, s):
+                for k2, s2, v in (pre if pre is not None else self.ev(item.context_expr, s)):
                     if k2 != "val":
                         nxt.append((k2, s2, v))
                         continue
